@@ -14,7 +14,7 @@ from concurrent.futures import Future as CFuture
 from concurrent.futures import ThreadPoolExecutor
 
 from hv import boot  # noqa: F401
-from hv.core import Result, viol
+from hv.core import Result, task_failure, viol
 from hv.ctxkit import A, Capture, MissingContext, MissingState
 from hv.vloop import Livelock
 from hv.world import Action, Chooser, World
@@ -355,8 +355,8 @@ def _method_copy(program, ch: Chooser) -> Result:
             w.run()
         except Livelock:
             pass
-        if not t.done() or t.exception() is not None or len(got) != 3:
-            viols.append(viol("transparent", f"method-copy/{program['how']}/fails", "three calls return", repr(t.exception() if t.done() else "pending")[:120]))
+        if task_failure(t) is not None or len(got) != 3:
+            viols.append(viol("transparent", f"method-copy/{program['how']}/fails", "three calls return", str(task_failure(t))[:120]))
         else:
             if got[0] is not a or got[2] is not a:
                 viols.append(viol("arguments", f"method-copy/{program['how']}/original", "self is the original", "other"))
@@ -532,8 +532,8 @@ def execute(program, ch: Chooser) -> Result:  # noqa: C901, PLR0912, PLR0915
         witness = f"{fam}/{program.get('kind', program.get('input'))}/{program.get('ctx', '-')}"
         if hang or not driver.done():
             viols.append(viol("termination", witness, "call returns", "pending"))
-        elif driver.exception() is not None:
-            viols.append(viol("transparent", f"driver-error/{witness}", "no error", repr(driver.exception())[:200]))
+        elif task_failure(driver) is not None:
+            viols.append(viol("transparent", f"driver-error/{witness}", "no error", task_failure(driver)))
         out = got.get("out")
         want_state = {"none": ["MissingContext"], "scope": ["inst", "A#1"], "scope+updated": ["inst", "A#2"], "nested": ["inst", "A#1"]}[program.get("ctx", "none")]
         if fam == "traced" and program.get("ctx", "none") == "none":
